@@ -44,7 +44,17 @@ def teardown():
 
 run, to_val, num_of, from_val = _meta.run, _meta.to_val, _meta.num_of, _meta.from_val
 features, nontrivial, known, skip, shrink = _meta.features, _meta.nontrivial, _meta.known, _meta.skip, _meta.shrink
-equal, spec_ok = _meta.src_equal, _meta.src_spec_ok
+equal = _meta.src_equal
+KNOWN_PROPS = ['C10'] + SOURCES
+
+
+def spec_ok(case, impl, spec, mode):
+    """C10 only judges memory safety: an IndexError (checked modes) or a crashed worker is a violation unless the
+    source property itself expects that error for this (malformed) input; every other difference is left to the
+    source property's own check (and to the model correspondence, `equal`)."""
+    if impl in ('EXC:IndexError', 'CRASH'):
+        return _meta.src_spec_ok(case, impl, spec, mode)
+    return True
 
 
 def gen(tier, rng):
